@@ -26,10 +26,10 @@ const (
 
 var UTC = time.UTC
 
-func Now() Time                         { return time.Unix(0, vsched.NowNanos()) }
-func Since(t Time) Duration             { return Now().Sub(t) }
-func Until(t Time) Duration             { return t.Sub(Now()) }
-func Unix(sec int64, nsec int64) Time   { return time.Unix(sec, nsec) }
+func Now() Time                                { return time.Unix(0, vsched.NowNanos()) }
+func Since(t Time) Duration                    { return Now().Sub(t) }
+func Until(t Time) Duration                    { return t.Sub(Now()) }
+func Unix(sec int64, nsec int64) Time          { return time.Unix(sec, nsec) }
 func ParseDuration(s string) (Duration, error) { return time.ParseDuration(s) }
 func Date(year int, month Month, day, hour, min, sec, nsec int, loc *Location) Time {
 	return time.Date(year, month, day, hour, min, sec, nsec, loc)
